@@ -246,11 +246,9 @@ class InterpBase:
             return "<0"
         if lo is not None and hi is not None and lo == hi == 0:
             return "==0"
-        res = None
-        if lo is not None and lo >= 0:
-            res = ">=0"
-        if hi is not None and hi <= 0:
-            res = "<=0"
+        ge = lo is not None and lo >= 0
+        le = hi is not None and hi <= 0
+        ne = False
         for f, op in st.facts:
             d = lin_add(l, f, -1)
             if not d.terms:  # l = f + d.c
@@ -259,11 +257,13 @@ class InterpBase:
                 if op == ">=0" and d.c > 0:
                     return ">0"
                 if op == ">=0" and d.c == 0:
-                    res = res or ">=0"
+                    ge = True
+                if op == ">0" and d.c == -1:
+                    ge = True
                 if op == "==0":
                     return ">0" if d.c > 0 else ("<0" if d.c < 0 else "==0")
                 if op == "!=0" and d.c == 0:
-                    res = res or "!=0"
+                    ne = True
             d = lin_add(l, f, 1)
             if not d.terms:  # l = -f + d.c
                 if op == ">0" and d.c <= 0:
@@ -271,12 +271,26 @@ class InterpBase:
                 if op == ">=0" and d.c < 0:
                     return "<0"
                 if op == ">=0" and d.c == 0:
-                    res = res or "<=0"
+                    le = True
+                if op == ">0" and d.c == 1:
+                    le = True
                 if op == "==0":
                     return ">0" if d.c > 0 else ("<0" if d.c < 0 else "==0")
                 if op == "!=0" and d.c == 0:
-                    res = res or "!=0"
-        return res
+                    ne = True
+        if ge and le:
+            return "==0"
+        if ge and ne:
+            return ">0"
+        if le and ne:
+            return "<0"
+        if ge:
+            return ">=0"
+        if le:
+            return "<=0"
+        if ne:
+            return "!=0"
+        return None
 
     def add_fact(self, st, l, op):
         if l.terms:
